@@ -95,7 +95,7 @@ mod sc {
     #[derive(Clone, Debug)]
     pub enum Body {
         Res(u32), Resd(u32, &'static str), Rep(u32), Probe(u32), Cmd(Box<Body>), Eval(Box<Simple>), EvalSyn,
-        DotMissing, Dot(Box<Simple>), DotSyn, DotIoErr,
+        DotMissing, Dot(Box<Simple>), DotSyn, DotIoErr, ExecFail(bool),
     }
     #[derive(Clone, Debug)]
     pub enum Target { Absent, Ext(u32), Fn(&'static str, u32), Bi(&'static str, Body) }
@@ -142,6 +142,7 @@ mod sc {
             Body::Dot(c) => format!("(dot {})", sx_simple(c)),
             Body::DotSyn => "dotsyn".into(),
             Body::DotIoErr => "dotioerr".into(),
+            Body::ExecFail(i) => format!("(execfail {})", *i as u8),
         }
     }
     fn sx_target(t: &Target) -> String {
@@ -254,6 +255,7 @@ mod sc {
             ("cmd", 1) => Some(Body::Cmd(Box::new(to_body(&r[0])?))),
             ("eval", 1) => Some(Body::Eval(Box::new(to_simple(&r[0])?))),
             ("dot", 1) => Some(Body::Dot(Box::new(to_simple(&r[0])?))),
+            ("execfail", 1) => Some(Body::ExecFail(num(&r[0])? != 0)),
             _ => None,
         }
     }
@@ -341,6 +343,7 @@ mod sc {
                     format!("{} {path}", self.pick(&[".", "source"]))
                 }
                 Body::DotIoErr => self.pick(&[". /tmp", "source /tmp", ". /bin"]).to_string(),
+                Body::ExecFail(_) => self.pick(&["exec no_such_command_xyz", "exec /nonexistent/cmd"]).to_string(),
                 Body::DotSyn => {
                     let path = format!("/tmp/dot{}", self.files.len());
                     let bad = self.pick(&["fi", "if", ")", "st 0 &&"]);
@@ -440,6 +443,7 @@ hret0() { probe 7; return 0; probe 8; }\nhret1() { probe 7; return 1; probe 8; }
         }
         for l in &c.lines {
             match l {
+                // (a syntax error inside `$(…)`, also in a here-document, is a syntax error of the line: read eagerly)
                 Line::SynErr => out.push_str(r.pick(&["fi\n", ")\n", "st 0 && ;\n", "if then fi\n"])),
                 Line::Cmds(v) => { out.push_str(&r.stmts(v)); out.push('\n'); }
             }
@@ -450,7 +454,7 @@ hret0() { probe 7; return 0; probe 8; }\nhret1() { probe 7; return 1; probe 8; }
     // ---------------------------------------------------------------------------------------------
     // generator
 
-    pub struct Gen { pub rng: Rng, pub marker: u32, pub depth: u32 }
+    pub struct Gen { pub rng: Rng, pub marker: u32, pub depth: u32, pub interactive: bool }
     impl Gen {
         fn m(&mut self) -> u32 { self.marker += 1; 10 + self.marker }
         fn status(&mut self) -> u32 { *self.rng.pick(&[0, 0, 1, 3]) }
@@ -466,7 +470,8 @@ hret0() { probe 7; return 0; probe 8; }\nhret1() { probe 7; return 1; probe 8; }
                     79..=83 => Body::EvalSyn,
                     84..=87 => Body::DotSyn,
                     88..=89 => Body::DotIoErr,
-                    90..=93 => Body::Resd(127, "abort"),
+                    90..=91 => Body::Resd(127, "abort"),
+                    92..=93 => Body::ExecFail(self.interactive),
                     _ => Body::Rep(1),
                 },
                 "ma" => match k {
@@ -511,6 +516,7 @@ hret0() { probe 7; return 0; probe 8; }\nhret1() { probe 7; return 1; probe 8; }
         }
         pub fn case(&mut self, seed: u64) -> Case {
             let interactive = self.rng.chance(1, 4);
+            self.interactive = interactive;
             let errexit = self.rng.chance(1, 2);
             let trap = match self.rng.below(4) {
                 0 | 1 => None,
@@ -639,7 +645,10 @@ hret0() { probe 7; return 0; probe 8; }\nhret1() { probe 7; return 1; probe 8; }
         let main = async move {
             let mut env = env;
             let run = Run {
-                work: Work { source: Source::String(script), profile: InitFile::None, rcfile: InitFile::None },
+                // `\0READERR<e>`: the main input is a directory (it opens, reading fails: EISDIR), errexit = <e>
+                work: Work {
+                    source: if script.starts_with("\0READERR") { Source::File { path: "/tmp".into() } } else { Source::String(script.clone()) },
+                    profile: InitFile::None, rcfile: InitFile::None },
                 options: vec![],
                 arg0: "yash".into(),
                 positional_params: vec![],
@@ -675,6 +684,9 @@ hret0() { probe 7; return 0; probe 8; }\nhret1() { probe 7; return 1; probe 8; }
             // (execute_builtin), lets `noexec` be ignored and `exit` look at stopped jobs)
             if interactive {
                 env.options.set(yash_env::option::Option::Interactive, yash_env::option::State::On);
+            }
+            if script == "\0READERR1" {
+                env.options.set(yash_env::option::Option::ErrExit, yash_env::option::State::On);
             }
             let interactive = env.options.get(yash_env::option::Option::Interactive) == yash_env::option::State::On;
             let t = sc_tail(&mut env, &work.source, interactive).await;
@@ -731,7 +743,7 @@ hret0() { probe 7; return 0; probe 8; }\nhret1() { probe 7; return 1; probe 8; }
     /// the table, independent of the Lean Spec): class and exit status of the first part that fails
     fn body_error(special: bool, b: &Body) -> Option<(&'static str, u32)> {
         match b {
-            Body::Res(_) | Body::Resd(..) | Body::Probe(_) | Body::DotIoErr => None,
+            Body::Res(_) | Body::Resd(..) | Body::Probe(_) | Body::DotIoErr | Body::ExecFail(_) => None,
             Body::Rep(n) => if special && *n != 0 { Some(("special-builtin", *n)) } else { None },
             Body::Cmd(inner) => body_error(false, inner),
             Body::Eval(c) | Body::Dot(c) => shell_error(c),
@@ -830,12 +842,13 @@ hret0() { probe 7; return 0; probe 8; }\nhret1() { probe 7; return 1; probe 8; }
         use super::*;
 
         #[derive(Clone, Debug)]
-        pub enum Ctl { Probe(u32), St(u32), Brk(u32), Cont(u32), Ret(Option<u32>), Exit(Option<u32>), SetE(bool), SetPf(bool), Tick(u32, u32) }
+        pub enum Ctl { Probe(u32), St(u32), Brk(u32), Cont(u32), Ret(Option<u32>), Exit(Option<u32>), SetE(bool), SetPf(bool), Tick(u32, u32), TrapSig(u8), Raise(u32), RaiseErr, SetP(u32) }
         #[derive(Clone, Debug)]
         pub enum NCmd {
             S(Simple), Ctl(Ctl), Grp(Redirs, Vec<NCmd>), Sub(Vec<NCmd>), If(Vec<NCmd>, Vec<NCmd>, Option<Vec<NCmd>>),
             Loop(bool, Vec<NCmd>, Vec<NCmd>), Neg(Box<NCmd>), Ao(Box<NCmd>, Vec<(bool, NCmd)>), Call(Vec<NCmd>),
             Pipe(Vec<NCmd>), For(bool, bool, u32, Vec<NCmd>), Case(bool, Vec<(bool, bool, char, Vec<NCmd>)>), Async(Vec<NCmd>),
+            ForPos(Vec<NCmd>), P(Box<NCmd>),
         }
         #[derive(Clone, Debug)]
         pub enum NLine { Cmds(Vec<NCmd>), SynErr }
@@ -851,8 +864,16 @@ hret0() { probe 7; return 0; probe 8; }\nhret1() { probe 7; return 1; probe 8; }
                 Ctl::Ret(n) => format!("(ret{})", sx_opt(n)), Ctl::Exit(n) => format!("(exit{})", sx_opt(n)),
                 Ctl::SetE(b) => format!("(sete {})", *b as u8), Ctl::SetPf(b) => format!("(setpf {})", *b as u8),
                 Ctl::Tick(c, k) => format!("(tick {c} {k})"),
+                Ctl::TrapSig(k) => format!("(trapsig ({}))", TRAP_ACTIONS[*k as usize].0),
+                Ctl::Raise(n) => format!("(raise {n})"), Ctl::RaiseErr => "(raiseerr)".into(),
+                Ctl::SetP(n) => format!("(setp {n})"),
             }
         }
+        /// the actions of `trap … USR1` (grammar of the shared model / shell text)
+        const TRAP_ACTIONS: [(&str, &str); 5] = [
+            ("(probe 97)", "probe 97"), ("(probe 97) (exit 5)", "probe 97; exit 5"), ("(probe 97) (ret 1)", "probe 97; return 1"),
+            ("(probe 97) (st 1)", "probe 97; st 1"), ("(probe 97) (exit)", "probe 97; exit"),
+        ];
         fn sx_list(v: &[NCmd]) -> String { v.iter().map(sx_ncmd).collect::<Vec<_>>().join(" ") }
         pub fn sx_ncmd(n: &NCmd) -> String {
             match n {
@@ -882,6 +903,8 @@ hret0() { probe 7; return 0; probe 8; }\nhret1() { probe 7; return 1; probe 8; }
                     out
                 }
                 NCmd::Async(b) => format!("(async {})", sx_list(b)),
+                NCmd::ForPos(b) => format!("(forpos {})", sx_list(b)),
+                NCmd::P(c) => format!("(p {})", sx_ncmd(c)),
             }
         }
         fn sx_line(l: &NLine) -> String {
@@ -909,6 +932,13 @@ hret0() { probe 7; return 0; probe 8; }\nhret1() { probe 7; return 1; probe 8; }
                 ("sete", 1) => Some(Ctl::SetE(num(&r[0])? != 0)),
                 ("setpf", 1) => Some(Ctl::SetPf(num(&r[0])? != 0)),
                 ("tick", 2) => Some(Ctl::Tick(num(&r[0])?, num(&r[1])?)),
+                ("raise", 1) => Some(Ctl::Raise(num(&r[0])?)), ("raiseerr", 0) => Some(Ctl::RaiseErr),
+                ("setp", 1) => Some(Ctl::SetP(num(&r[0])?)),
+                ("trapsig", 1) => {
+                    let Sx::L(v) = &r[0] else { return None };
+                    let text = v.iter().map(|x| match x { Sx::L(w) => format!("({})", w.iter().filter_map(atom).collect::<Vec<_>>().join(" ")), Sx::A(a) => a.clone() }).collect::<Vec<_>>().join(" ");
+                    Some(Ctl::TrapSig(TRAP_ACTIONS.iter().position(|a| a.0 == text)? as u8))
+                }
                 _ => None,
             }
         }
@@ -951,6 +981,8 @@ hret0() { probe 7; return 0; probe 8; }\nhret1() { probe 7; return 1; probe 8; }
                     Some(NCmd::Case(num(&r[0])? != 0, items))
                 }
                 "async" => Some(NCmd::Async(to_list(r)?)),
+                "forpos" => Some(NCmd::ForPos(to_list(r)?)),
+                "p" if r.len() == 1 => Some(NCmd::P(Box::new(to_ncmd(&r[0])?))),
                 _ => None,
             }
         }
@@ -994,6 +1026,10 @@ hret0() { probe 7; return 0; probe 8; }\nhret1() { probe 7; return 1; probe 8; }
                     Ctl::SetE(b) => if *b { self.r.pick(&["set -e", "set -o errexit"]).into() } else { self.r.pick(&["set +e", "set +o errexit"]).into() },
                     Ctl::SetPf(b) => if *b { "set -o pipefail".into() } else { "set +o pipefail".into() },
                     Ctl::Tick(c, k) => format!("tick {c} {k}"),
+                    Ctl::TrapSig(k) => format!("trap '{}' USR1", TRAP_ACTIONS[*k as usize].1),
+                    Ctl::Raise(n) => format!("st {n} {}", self.r.pick(&["$(kill -s USR1 $$)", "`kill -s USR1 $$`"])),
+                    Ctl::RaiseErr => "st 0 $(kill -s USR1 $$) ${unset_u?}".into(),
+                    Ctl::SetP(n) => format!("set -- {}", (0..*n).map(|k| format!("a{k}")).collect::<Vec<_>>().join(" ")).trim_end().to_string(),
                 }
             }
             fn list(&mut self, v: &[NCmd]) -> String { v.iter().map(|n| self.ncmd(n)).collect::<Vec<_>>().join("; ") }
@@ -1058,6 +1094,8 @@ hret0() { probe 7; return 0; probe 8; }\nhret1() { probe 7; return 1; probe 8; }
                         out
                     }
                     NCmd::Async(b) => format!("{{ {}; }} & wait", self.list(b)),
+                    NCmd::ForPos(b) => format!("for v do {}; done", self.list(b)),
+                    NCmd::P(c) => self.ncmd(c),
                 }
             }
         }
@@ -1091,9 +1129,14 @@ hret0() { probe 7; return 0; probe 8; }\nhret1() { probe 7; return 1; probe 8; }
         }
 
         // ---- generator
-        pub struct NGen { pub g: Gen, pub budget: i32, pub counter: u32 }
+        pub struct NGen { pub g: Gen, pub budget: i32, pub counter: u32, pub sig: bool }
         impl NGen {
             fn leaf(&mut self, in_loop: bool, in_fn: bool, no_cont: bool) -> NCmd {
+                if self.sig && self.g.rng.chance(1, 4) {
+                    // the shell receives the trapped signal while a (failing) command runs
+                    return if self.g.rng.chance(1, 5) { NCmd::Ctl(Ctl::RaiseErr) } else { NCmd::Ctl(Ctl::Raise(self.g.status())) };
+                }
+                if !in_fn && self.g.rng.chance(1, 25) { return NCmd::Ctl(Ctl::SetP(self.g.rng.below(3) as u32)); }
                 match self.g.rng.below(100) {
                     0..=39 => NCmd::S(self.g.simple()),
                     40..=61 => NCmd::Ctl(Ctl::Probe(self.g.m())),
@@ -1150,7 +1193,12 @@ hret0() { probe 7; return 0; probe 8; }\nhret1() { probe 7; return 1; probe 8; }
                 self.budget -= 1;
                 if depth == 0 || self.budget <= 0 || self.g.rng.chance(1, 4) { return self.leaf(in_loop, in_fn, no_cont); }
                 let d = depth - 1;
-                match self.g.rng.below(100) {
+                let mut k = self.g.rng.below(100);
+                if self.sig && ((75..=80).contains(&k) || (91..=94).contains(&k)) { k = 0; }
+                if !in_fn && (81..=85).contains(&k) && self.g.rng.chance(1, 3) {
+                    return NCmd::ForPos(self.list(d, true, in_fn, no_cont));
+                }
+                match k {
                     11..=15 => NCmd::Call(self.list(d, in_loop, true, no_cont)),
                     0..=10 => {
                         let r = match self.g.rng.below(10) { 0..=5 => Redirs::None, 6 => Redirs::Ok, 7 => Redirs::Cs(self.g.status()), 8 => Redirs::Err, _ => Redirs::XErr };
@@ -1230,8 +1278,10 @@ hret0() { probe 7; return 0; probe 8; }\nhret1() { probe 7; return 1; probe 8; }
                     }
                     _ => Some(vec![p99, NLine::SynErr, NLine::Cmds(vec![NCmd::Ctl(Ctl::Probe(98))])]),
                 };
+                self.sig = self.g.rng.chance(1, 5);
                 let nlines = 1 + self.g.rng.below(2);
                 let mut lines = vec![];
+                if self.sig { lines.push(NLine::Cmds(vec![NCmd::Ctl(Ctl::TrapSig(self.g.rng.below(5) as u8))])); }
                 for k in 0..nlines {
                     if k > 0 && self.g.rng.chance(1, 8) { lines.push(NLine::SynErr); continue; }
                     let mut v = vec![self.ncmd(depth, false, false, false)];
@@ -1240,7 +1290,35 @@ hret0() { probe 7; return 0; probe 8; }\nhret1() { probe 7; return 1; probe 8; }
                     lines.push(NLine::Cmds(v));
                 }
                 lines.push(NLine::Cmds(vec![NCmd::Ctl(Ctl::Probe(self.g.m()))]));
+                if self.sig {
+                    // every simple and compound command is a boundary at which caught signals are handled
+                    for l in lines.iter_mut() { if let NLine::Cmds(v) = l { *v = v.drain(..).map(wrap).collect(); } }
+                    let trap = trap.map(|ls| ls.into_iter().map(|l| match l { NLine::Cmds(v) => NLine::Cmds(v.into_iter().map(wrap).collect()), x => x }).collect());
+                    return NCase { seed, errexit, trap, lines };
+                }
                 NCase { seed, errexit, trap, lines }
+            }
+        }
+
+        fn wrap_list(v: Vec<NCmd>) -> Vec<NCmd> { v.into_iter().map(wrap).collect() }
+        /// wraps every `syntax::Command` (simple, compound, function call) in the command-boundary node
+        fn wrap(n: NCmd) -> NCmd {
+            let p = |n: NCmd| NCmd::P(Box::new(n));
+            match n {
+                NCmd::S(_) | NCmd::Ctl(_) => p(n),
+                NCmd::Grp(r, b) => p(NCmd::Grp(r, wrap_list(b))),
+                NCmd::Sub(b) => p(NCmd::Sub(wrap_list(b))),
+                NCmd::If(c, b, e) => p(NCmd::If(wrap_list(c), wrap_list(b), e.map(wrap_list))),
+                NCmd::Loop(u, c, b) => p(NCmd::Loop(u, wrap_list(c), wrap_list(b))),
+                NCmd::Call(b) => p(NCmd::Call(wrap_list(b))),
+                NCmd::For(w, ro, k, b) => p(NCmd::For(w, ro, k, wrap_list(b))),
+                NCmd::ForPos(b) => p(NCmd::ForPos(wrap_list(b))),
+                NCmd::Case(se, items) => p(NCmd::Case(se, items.into_iter().map(|(m, e, k, b)| (m, e, k, wrap_list(b))).collect())),
+                NCmd::Neg(c) => NCmd::Neg(Box::new(wrap(*c))),
+                NCmd::Ao(f, rest) => NCmd::Ao(Box::new(wrap(*f)), rest.into_iter().map(|(k, c)| (k, wrap(c))).collect()),
+                NCmd::Pipe(b) => NCmd::Pipe(wrap_list(b)),
+                NCmd::Async(b) => NCmd::Async(wrap_list(b)),
+                NCmd::P(c) => NCmd::P(c),
             }
         }
 
@@ -1265,6 +1343,7 @@ hret0() { probe 7; return 0; probe 8; }\nhret1() { probe 7; return 1; probe 8; }
         fn first_leaf<'a>(n: &'a NCmd, exempt: &mut bool) -> Option<&'a Simple> {
             match n {
                 NCmd::S(c) => Some(c),
+                NCmd::P(c) => first_leaf(c, exempt),
                 NCmd::Grp(r, b) => if matches!(r, Redirs::Err | Redirs::XErr) { None } else { first_leaf(b.first()?, exempt) },
                 NCmd::Call(b) => first_leaf(b.first()?, exempt),
                 NCmd::If(c, _, _) | NCmd::Loop(_, c, _) => { *exempt = true; first_leaf(c.first()?, exempt) }
@@ -1275,7 +1354,7 @@ hret0() { probe 7; return 0; probe 8; }\nhret1() { probe 7; return 1; probe 8; }
                     (true, false, _, b) => first_leaf(b.first()?, exempt),
                     _ => None,
                 },
-                NCmd::Sub(_) | NCmd::Ctl(_) | NCmd::Pipe(_) | NCmd::For(..) | NCmd::Case(..) | NCmd::Async(_) => None,
+                NCmd::Sub(_) | NCmd::Ctl(_) | NCmd::Pipe(_) | NCmd::For(..) | NCmd::Case(..) | NCmd::Async(_) | NCmd::ForPos(_) => None,
             }
         }
         fn markers(n: &NCmd, out: &mut Vec<u32>) {
@@ -1290,7 +1369,8 @@ hret0() { probe 7; return 0; probe 8; }\nhret1() { probe 7; return 1; probe 8; }
                     if let Some(e) = e { e.iter().for_each(|n| markers(n, out)); }
                 }
                 NCmd::Loop(_, c, b) => c.iter().chain(b.iter()).for_each(|n| markers(n, out)),
-                NCmd::Neg(c) => markers(c, out),
+                NCmd::Neg(c) | NCmd::P(c) => markers(c, out),
+                NCmd::ForPos(b) => b.iter().for_each(|n| markers(n, out)),
                 NCmd::Ao(f, rest) => { markers(f, out); rest.iter().for_each(|(_, n)| markers(n, out)); }
             }
         }
@@ -1363,6 +1443,14 @@ hret0() { probe 7; return 0; probe 8; }\nhret1() { probe 7; return 1; probe 8; }
 
 }
 
+/// `rd <seed> (<interactive> <errexit> 0)`: the shell whose main input cannot be read
+fn rd_case(case: &str) -> String {
+    let f: Vec<&str> = case.split(|c| c == ' ' || c == '(' || c == ')').filter(|s| !s.is_empty()).collect();
+    if f.len() != 5 || f[0] != "rd" { return "bad-case".into(); }
+    let (i, e) = (f[2] == "1", f[3] == "1");
+    yverif::proto::guarded(|| sc::observe_script(format!("\0READERR{}", e as u8), vec![], i))
+}
+
 fn main() {
     quiet_panics();
     let o = Opts::from_args();
@@ -1392,6 +1480,11 @@ fn main() {
         if c.starts_with("sc ") {
             let obs = sc::run_case(c);
             emit(c, &obs, &sc::oracle(c, &obs));
+            continue;
+        }
+        if c.starts_with("rd ") {
+            let obs = rd_case(c);
+            emit(c, &obs, "-");
             continue;
         }
         if c.starts_with("nc ") {
@@ -1441,11 +1534,19 @@ fn main() {
         if k % o.shard.1 != o.shard.0 {
             continue;
         }
-        let mut g = sc::Gen { rng: Rng::new(s), marker: 0, depth: 0 };
+        let mut g = sc::Gen { rng: Rng::new(s), marker: 0, depth: 0, interactive: false };
         let c = g.case(s % 1000);
         let case = sc::sx_case(&c);
         let obs = sc::run_case(&case);
         emit(&case, &obs, &sc::oracle(&case, &obs));
+    }
+    // the main input cannot be read (4 cases, shard 0 only)
+    if !only_nc && o.shard.0 == 0 {
+        for (i, e) in [(0, 0), (0, 1), (1, 0), (1, 1)] {
+            let case = format!("rd 0 ({i} {e} 0)");
+            let obs = rd_case(&case);
+            emit(&case, &obs, "-");
+        }
     }
     // the `nc` family: structured simple commands at any depth of the enclosing constructs
     let n = if o.thorough() { 160_000 } else { 5_000 };
@@ -1455,7 +1556,7 @@ fn main() {
         if k % o.shard.1 != o.shard.0 {
             continue;
         }
-        let mut g = sc::nc::NGen { g: sc::Gen { rng: Rng::new(s), marker: 0, depth: 0 }, budget: if o.thorough() { 16 } else { 12 }, counter: 0 };
+        let mut g = sc::nc::NGen { g: sc::Gen { rng: Rng::new(s), marker: 0, depth: 0, interactive: false }, budget: if o.thorough() { 16 } else { 12 }, counter: 0, sig: false };
         let c = g.case(s % 1000, 1 + (k % 4) as u32);
         let case = sc::nc::sx_case(&c);
         let obs = sc::nc::run_case(&case);
